@@ -1,4 +1,4 @@
-import BiotiteModel.Proofs.C07Models
+import BiotiteModel.Proofs.C07Bonds
 import BiotiteModel.Gen.C07
 /-!
 # C07 — PDB files round-trip structures and never emit shifted columns: property theorems
@@ -346,6 +346,48 @@ theorem C07_conect (atoms : List Atom) (bonds : List (Nat × Nat)) (cidx p : Nat
   simp [List.mem_filter]
 
 example : chunk4 [1, 2, 3, 4, 5, 6] = [[1, 2, 3, 4], [5, 6]] := by decide
+
+/-- **CONECT round trip.**  For strictly increasing positive atom ids inside the un-wrapped plain / hybrid-36
+range (`idt` = the id texts the writer produced), `_get_bonds` applied to a file that contains the CONECT
+records written for the carriable bonds (plus any non-CONECT records, lines padded to 80 as `PDBFile.read`
+does) returns exactly the set of carriable bonds, as sorted index pairs, through the atom-id map. -/
+theorem C07_conect_roundtrip (h36 : Bool) (atoms : List Atom) (idv : List Int) (idt : List (List Char))
+    (bonds : List (Nat × Nat)) (other : List (List Char))
+    (hal : atoms.length = idv.length) (hlen : idt.length = idv.length) (hne : idv ≠ [])
+    (hinc : idv.Pairwise (· < ·)) (hpos : ∀ v ∈ idv, 0 < v)
+    (htxt : ∀ k, (hk : k < idv.length) → idText h36 5 pdbMaxAtoms idv[k] = .ok (idt[k]'(by omega)))
+    (hrange : ∀ v ∈ idv, if h36 then v ≤ (maxNumber 5 : Nat) else v ≤ pdbMaxAtoms)
+    (hother : ∀ l ∈ other, startsWith "CONECT".toList l = false) :
+    ∃ bs, readBonds idv (other ++ (conectLines idt (bonds.filter (carriable atoms))).map (ljust 80)) = some (.ok bs) ∧
+      ∀ q, q ∈ bs ↔ ∃ b ∈ bonds, carriable atoms b = true ∧ q = normPair b := by
+  have hb : ∀ b ∈ bonds.filter (carriable atoms), b.1 < idv.length ∧ b.2 < idv.length := by
+    intro b hbm
+    have hc := (List.mem_filter.1 hbm).2
+    unfold carriable at hc
+    rw [← hal]
+    cases h1 : atoms[b.1]? with
+    | none => simp [h1] at hc
+    | some a =>
+      cases h2 : atoms[b.2]? with
+      | none => simp [h1, h2] at hc
+      | some c =>
+        exact ⟨(List.getElem?_eq_some_iff.1 h1).1, (List.getElem?_eq_some_iff.1 h2).1⟩
+  obtain ⟨bs, h1, h2⟩ := conect_roundtrip h36 idv idt (bonds.filter (carriable atoms)) other hlen hne hinc hpos htxt
+    hrange hb hother
+  refine ⟨bs, h1, fun q => ?_⟩
+  rw [h2]
+  simp only [List.mem_filter]
+  constructor
+  · rintro ⟨b, ⟨hm, hc⟩, rfl⟩; exact ⟨b, hm, hc, rfl⟩
+  · rintro ⟨b, hm, hc, rfl⟩; exact ⟨b, ⟨hm, hc⟩, rfl⟩
+
+/-- non-vacuity: two hybrid-36 ids (99999 → "99999", 100000 → "A0000"), one hetero bond -/
+example :
+    let a : Atom := { hetero := true, atomId := 0, name := "C".toList, resName := "LIG".toList, chain := "A".toList,
+                      resId := 1, insCode := [], element := "C".toList, occ := ⟨false, 1, 0⟩, bf := ⟨false, 0, 0⟩, charge := 0 }
+    readBonds [99999, 100000] ((conectLines ["99999".toList, "A0000".toList]
+        ([(0, 1)].filter (carriable [a, a]))).map (ljust 80)) = some (.ok [(0, 1)]) := by decide
+
 
 /-! ## obligations on the tables regenerated from `file.py` / `hybrid36.pyx` (`Gen/C07.lean`) -/
 section Gen
